@@ -357,6 +357,18 @@ def check_misc(ctx):
              (dict(pressure_points=ref_iso(pressure_unit='torr')), 'reference isotherm in torr'),
              (dict(pressure_points=ref_iso(pressure_mode='relative', pressure_unit=None)), 'reference isotherm in relative pressure'),
              (dict(pressure_points=ref_iso(loading_unit='mol', material_unit='kg')), 'reference isotherm, other loading units')]
+    # a model isotherm which was itself fitted to points generated from a model (generate - refit - generate): its metadata carry the
+    # marker the generator adds
+    gen1 = core.call(pygaps.PointIsotherm.from_modelisotherm, mi)
+    if gen1.ok:
+        refit1 = core.call(pygaps.ModelIsotherm.from_pointisotherm, gen1.value, model='Toth')
+        if refit1.ok:
+            o2 = core.call(pygaps.PointIsotherm.from_modelisotherm, refit1.value)
+            ev += 1
+            nt += 1
+            if not o2.ok or core.relerr(o2.value.loading(), refit1.value.model.loading(o2.value.pressure())) > 1e-7 or o2.value.properties.get('note') != 'meta':
+                ctx.violate(core.make_violation({'check': 'from_modelisotherm-raises' if not o2.ok else 'from_modelisotherm-off-model', 'how': 'second generation'},
+                                                f'model -> points -> refitted model -> points: {o2.brief()[:200] if not o2.ok else "points off the model / metadata lost"}', {}))
     for kw, tag in forms:
         o = core.call(pygaps.PointIsotherm.from_modelisotherm, mi, **kw)
         ev += 1
